@@ -36,7 +36,7 @@ def run(ctx):
     n = 800 if ctx.tier == "quick" else 20000
     ctx.stream("tok", [fcdrv], env=gocommon.fc_env("tok", "%d %d" % (ctx.seed + 3, n)), timeout=3000)
     # layout metamorphic runs + dedent test
-    args = "%d 120 6" % ctx.seed if ctx.tier == "quick" else "%d 5000 40" % ctx.seed
+    args = "%d 120 6" % ctx.seed if ctx.tier == "quick" else "%d 1200 20" % ctx.seed
     r = ctx.run_harness([fcdrv], env=gocommon.fc_env("c06", args), timeout=20000)
     ok = r is not None
     if ok:
@@ -72,7 +72,7 @@ def run(ctx):
             ctx.direct.append({"kind": "layout finding not listed as known", "program": open(p).read(), "observed": st})
         else:
             ctx.notes.append("known finding %s no longer reproduces" % kid)
-    ctx.finish(rule="tokenizer streams (columns included) + one abstract program per case rendered under 6 (quick) / 40 (thorough) random layouts with independent choices at every block, statement, arm, definition and pipeline stage, emitted Go compared byte for byte with the canonical layout's; dedent test on if-only bodies; distinct = distinct abstract programs")
+    ctx.finish(rule="tokenizer streams (columns included) + one abstract program per case rendered under 6 (quick) / 20 (thorough) random layouts with independent choices at every block, statement, arm, definition and pipeline stage, emitted Go compared byte for byte with the canonical layout's; dedent test on if-only bodies; distinct = distinct abstract programs")
 
 
 def replay(ctx, path):
